@@ -325,7 +325,7 @@ class UnRootedTreeModel(AbstractTreeModel):
         taxa = process_object(data['taxa'], dic)
         tree = parse_tree(taxa, data)
         branch_lengths = process_object(data['branch_lengths'], dic)
-        if 'keep_branch_lengths' in data:
+        if data.get('keep_branch_lengths', False):
             blens = [
                 float(node.edge_length)
                 for node in sorted(
